@@ -227,6 +227,20 @@ class Interp:
         return self.exec_body_as_call(src.node, frame)
 
     def exec_body_as_call(self, node, frame):
+        if not isinstance(node, ast.Lambda) and _is_generator(node):
+            # generator functions are evaluated eagerly: the yielded values are collected in order and handed out
+            # as an iterator (differs from CPython only in WHEN side effects / exceptions of the body happen)
+            frame.locals["__yields__"] = []
+            self.trusted_used.add("encoding:generator bodies are evaluated eagerly (order of yields preserved)")
+            self.call_stack.append(frame.label)
+            try:
+                try:
+                    self.exec_block(node.body, frame)
+                except ReturnExc:
+                    pass
+                return iter(frame.locals["__yields__"])
+            finally:
+                self.call_stack.pop()
         self.call_stack.append(frame.label)
         if len(self.call_stack) > 60:
             raise OutsideSubset("interpreter recursion too deep: %s" % self.call_stack[-3:])
@@ -830,6 +844,23 @@ class Interp:
     def e_FormattedValue(self, node, frame):
         return self.e_JoinedStr(ast.JoinedStr(values=[node]), frame)
 
+    def _yield_list(self, frame):
+        f = frame
+        while f is not None:
+            if "__yields__" in f.locals:
+                return f.locals["__yields__"]
+            f = f.parent
+        raise OutsideSubset("yield outside a generator function")
+
+    def e_Yield(self, node, frame):
+        self._yield_list(frame).append(None if node.value is None else self.eval(node.value, frame))
+        return None
+
+    def e_YieldFrom(self, node, frame):
+        it = self.eval(node.value, frame)
+        self._yield_list(frame).extend(self.models.concrete_iter(self, it))
+        return None
+
     def e_Starred(self, node, frame):
         raise OutsideSubset("starred outside call/display")
 
@@ -984,6 +1015,26 @@ class Interp:
             raise
         except Exception as exc:
             raise PyRaise(exc)
+
+
+_GEN_CACHE = {}
+
+
+def _is_generator(node):
+    k = id(node)
+    if k not in _GEN_CACHE:
+        found = False
+        stack = list(node.body)
+        while stack:
+            n = stack.pop()
+            if isinstance(n, (ast.Yield, ast.YieldFrom)):
+                found = True
+                break
+            if isinstance(n, (ast.FunctionDef, ast.Lambda, ast.ClassDef, ast.GeneratorExp)):
+                continue
+            stack.extend(ast.iter_child_nodes(n))
+        _GEN_CACHE[k] = found
+    return _GEN_CACHE[k]
 
 
 def _has_fraction(vals, depth=0):
